@@ -63,6 +63,11 @@ PartsPool(sl) ==
   \cup {<<Part("lit", s, 0), Part("lit", <<SP>>, 0), Part("arg", t, 0)>> : s \in SH, t \in SH2}
   \cup {<<Part("safe", t, 0), Part("lit", <<SEP>>, 0), Part("arg", s, 0)>> : s \in SH, t \in SH2}
   \cup {<<Part("lit", s, 0), Part("lit", <<SP>>, 0), Part("err", E, r)>> : s \in SH2, r \in NonNil(sl)}
+\* formats without error operands (the f-variants of the annotation constructors)
+PartsPoolPlain ==
+  {<<Part("lit", s, 0)>> : s \in SH2}
+  \cup {<<Part("lit", s, 0), Part("lit", <<SP>>, 0), Part("arg", t, 0)>> : s \in SH2, t \in SH2}
+  \cup {<<Part("safe", t, 0), Part("lit", <<SEP>>, 0), Part("arg", s, 0)>> : s \in SH2, t \in SH2}
 \* formats with one %w: after ": ", after a space, glued to the text, in front
 WPartsPool(sl) ==
   {<<Part("lit", s, 0), Part("lit", <<SEP>>, 0), Part("w", E, r)>> : s \in SH2, r \in NonNil(sl)}
@@ -140,6 +145,12 @@ Step1(sl) ==
         Take(Step("WithSafeDetails", i, <<i>>, E, E, <<Part("lit", s, 0), Part("xsafe", t, 0)>>, 0, E))
   \/ \E o \in {"Wrapf", "NewAssertionErrorWithWrappedErrf", "WithSafeDetails"} \cap Ops :
         \E i \in Targets(sl) : \E p \in PartsPool(sl) \cup {E} : Take(Step(o, i, <<i>>, E, E, p, 0, E))
+  \/ \E o \in {"WithMessagef", "WithHintf", "WithDetailf"} \cap Ops :
+        \E i \in Targets(sl) : \E p \in PartsPoolPlain : Take(Step(o, i, <<i>>, E, E, p, 0, E))
+  \* (an empty message is not "regular text = non-empty")
+  \/ On("UnimplementedErrorf") /\ \E d \in FirstFree(sl) :
+        \E p \in {q \in PartsPoolPlain : q[1].s # E} : \E lk \in LinkPool :
+        Take(Step("UnimplementedErrorf", d, E, E, lk, p, 0, E))
   \/ On("WithTelemetry") /\ \E i \in Targets(sl) : \E a \in KeyPool : Take(Step("WithTelemetry", i, <<i>>, E, a, E, 0, E))
   \/ On("WithIssueLink") /\ \E i \in Targets(sl) : \E a \in LinkPool : Take(Step("WithIssueLink", i, <<i>>, E, a, E, 0, E))
   \/ On("WithContextTags") /\ \E i \in Targets(sl) : \E a \in TagPool \cup {E} :
